@@ -177,6 +177,9 @@ def broken_variants(rng, path):
         tail = rest[j:] if j >= 0 else b""
         for bad in (b"4294967296", b"-1", b"99", b"18446744073709551616", b"'unterminated", b"'bad\\escape'", b"", b"'a'junk"):
             v.append(("bad_qual", path[:i + 1] + bad + tail))
+        # a quoted qualifier cut off right after a backslash: the path ends inside an escape
+        for t in (b"t1", b"1", b"", b"alpha\\"):
+            v.append(("bad_qual", path[:i + 1] + b"'" + t + b"\\"))
     return v
 
 
